@@ -440,3 +440,36 @@ fn c10_collect_contract_order0() {
 fn c10_collect_contract_order1() {
     collect_contract(1);
 }
+
+//@ id: c05_hash_labels_cardinality
+//@ prop: C05, C17
+//@ tier: quick
+//@ strength: bounded(2 declared labels; request maps with 1, 2 and 3 entries, one with an undeclared name)
+//@ fn: vec::MetricVecCore::hash_labels
+//@ obligation: the map form is accepted exactly when the map has one entry per declared label name and nothing else: too few entries, an EXTRA undeclared entry, or a missing declared name give Err and hash nothing usable
+#[kani::proof]
+#[kani::unwind(10)]
+#[kani::stub(<fnv::FnvHasher as std::hash::Hasher>::write, rec::rec_write)]
+#[kani::stub(<fnv::FnvHasher as std::hash::Hasher>::finish, rec::rec_finish)]
+#[kani::stub(alloc::fmt::format, stub_format)]
+fn c05_hash_labels_cardinality() {
+    let v = mk_vec(&["a", "b"]);
+    let mut __rec = rec::Rec::new();
+    rec::install(&mut __rec);
+    let mut m: HashMap<&str, &str> = HashMap::new();
+    m.insert("a", "x");
+    let r1 = v.hash_labels(&m);
+    assert!(matches!(r1, Err(Error::InconsistentCardinality { expect: 2, got: 1 })), "C05.hash_labels: map with too few entries not refused with InconsistentCardinality");
+    m.insert("b", "y");
+    let r2 = v.hash_labels(&m);
+    assert!(r2.is_ok(), "C05.hash_labels: complete map refused");
+    m.insert("c", "z");
+    let r3 = v.hash_labels(&m);
+    assert!(matches!(r3, Err(Error::InconsistentCardinality { expect: 2, got: 3 })), "C05.hash_labels: map with an extra, undeclared label name not refused");
+    let mut m2: HashMap<&str, &str> = HashMap::new();
+    m2.insert("a", "x");
+    m2.insert("c", "y");
+    let r4 = v.hash_labels(&m2);
+    assert!(r4.is_err(), "C05.hash_labels: map with a missing declared name not refused");
+    core::mem::forget((v, m, m2, r1, r2, r3, r4));
+}
